@@ -86,6 +86,8 @@ def parse_edges(tlc_out):
 
 GOOD_CFGS = [(BE_RS, 2, 1, 1, 16), (BE_RS, 4, 2, 2, 16), (BE_XOR, 3, 3, 3, 32), (BE_XOR, 5, 5, 3, 32), (BE_ISAL_VAND, 4, 2, 2, 8),
              (BE_ISAL_CAUCHY, 3, 2, 2, 8), (BE_NULL, 4, 2, 2, 32), (BE_RS, 10, 4, 4, 16), (BE_XOR, 6, 6, 4, 32), (BE_RS, 1, 1, 1, 16)]
+# random histories also create parity-less RS instances (accepted since m >= 0 is): they hold the GF tables too
+RAND_CFGS = GOOD_CFGS + [(BE_RS, 3, 0, 0, 16), (BE_RS, 1, 0, 0, 16), (BE_RS, 20, 12, 12, 16)]
 BAD_CFGS = [(BE_RS, 0, 2, 2, 16), (BE_RS, -1, 2, 2, 16), (BE_RS, 2, -1, 1, 16), (BE_RS, 30, 3, 3, 16), (BE_XOR, 4, 3, 3, 32),
             (BE_XOR, 3, 3, 4, 32), (1, 4, 2, 2, 16), (2, 4, 2, 2, 16), (5, 4, 2, 2, 16), (8, 4, 2, 2, 16), (9, 4, 2, 2, 16), (255, 4, 2, 2, 16),
             (-1, 4, 2, 2, 16), (BE_ISAL_VAND, 4, 2, 2, 4), (BE_ISAL_CAUCHY, 4, 2, 2, 1), (BE_ISAL_VAND, 33, 0, 0, 8), (BE_XOR, 0, 0, 0, 32)]
@@ -131,7 +133,7 @@ def random_history(seed, length=60, faults=False, nslots=5):
                     out.append("setnext %d" % r.choice([INT_MAX, INT_MAX - 1])); dead.clear()
                 elif slots:
                     out.append("setnext_before %d" % r.choice(list(slots))); dead.clear()
-            be, k, m, hd, w = r.choice(GOOD_CFGS)
+            be, k, m, hd, w = r.choice(RAND_CFGS)
             if faults and r.random() < 0.2:
                 out.append("arm %d 0 1 0" % be)
                 out.append("create %d %d %d %d %d %d %d" % (s, be, k, m, hd, w, r.choice([1, 2])))
